@@ -19,10 +19,6 @@ GP = 'self._point._raw_pointer.g_pt'
 GU = 'self._point._raw_pointer.g_u'
 
 
-def _names(cid):
-    return '|'.join("enum(%s)" % ','.join(repr(n) for n in EC.NAMES[cid]).join(['', '']) for _ in [0])
-
-
 def registry(cid, tier='thorough'):
     reg = EC.ecc_registry(cid)
     n = SK.curve_bytes(cid)
@@ -208,7 +204,36 @@ def units(prop, tier):
         for name in names:
             out.append(pyvc_unit(prop, 'point.curves.%s' % (name or 'unknown').replace(' ', '_'), lambda name=name: curves_unit_registry(name),
                                  [CURVES + '.load', CURVES + '.__getitem__']))
+    if prop == 'C19':
+        # inputs never mutated / a copy is independent: the operator wrappers again, for their frames (modifies = exactly the left operand of the
+        # in-place forms, nothing for the others; `fresh` clauses: results and copies share no native state with their operands)
+        ops2 = ['copy', '__neg__', '__add__', '__iadd__', '__mul__', '__imul__', '__rmul__', 'double']
+        xops2 = ['copy', '__mul__', '__imul__', '__rmul__']
+        for cid in EC.ALL_CIDS:
+            fs = [ECCPOINT + '.' + f for f in ops2] if cid <= 7 else [ECCXPOINT + '.' + f for f in xops2]
+            out.append(pyvc_unit(prop, 'point.operands.%s' % EC.LABEL[cid], lambda cid=cid: registry(cid, tier), fs))
     if prop == 'C06':
         for cid in EC.ALL_CIDS:
             out.append(pyvc_unit(prop, 'point.%s' % EC.LABEL[cid], lambda cid=cid: registry(cid, tier), targets(cid), weight=3))
     return out
+
+
+# ======================================================================================================================================
+# Vacuity / strength checks (lib/Crypto/PublicKey/_point.py):
+#   C06 point.p256        `np = self.copy()` -> `np = self` in __add__            exit 1  __add__.ensures.fresh / .sum, modifies (operand changed)
+#   C06 point.p256        get_xy called with (yb, xb) instead of (xb, yb)         exit 1  xy.ensures.x / .y
+#   C06 point.ed25519     `or len(yb) != modulus_bytes` dropped in __init__       exit 1  __init__.call_pre of native new_point (len(bytes(y)) == n)
+#   C06 point.p256        `if scalar < 0` -> `<= 0` in EccPoint.__imul__              exit 1  __imul__.raises_iff.ValueError.only_if
+#   C06 point.p256        `if scalar < 0` -> `< -1`                                  exit 0  EQUIVALENT: long_to_bytes(-1) raises the same ValueError
+#   C06 point.p256        locals x, y renamed in copy()                           exit 0
+#   C19 point.curves.p256 `curve.is_weierstrass = ...` moved out of the `with`    exit 1  __getitem__.ensures.locked
+#   C19 point.curves.p256 `dict.fromkeys(self.p256_names, p256)` -> p224_names    exit 1  load.raises_only.KeyError + 14 record clauses
+#   C19 point.curves.ed25519 is_edwards membership without ED25519                exit 1  __getitem__.ensures.flags
+#   C19 point.curves.p256 `with self.curves_lock:` -> `if True:`                  exit 1  __getitem__.ensures.locked
+#   C19 point.curves.p256 local `curve` renamed                                   exit 0
+# Findings of this area, all repaired in /repo meanwhile (see the report): F4 EccPoint(x, y, 'curve448') called the 4-argument native constructor with 5
+#   arguments (segmentation fault); F5 is_point_at_infinity() true for the Edwards point (0, -1).
+# Assumed: native point libraries (ecc_common.install_native; bounded/ec.py; C side contracts/ec), ctypes glue (contracts/rawapi.py), long_to_bytes /
+#   bytes_to_long (bounded/number.py).  EccPoint.__imul__ draws getrandbits(64) from the SYSTEM tape for blinding: stated (install_random), result independent.
+# NOT PROVED: EccPoint.set / EccXPoint.set (clone): unused by the library itself; _Curves.items / __contains__ / __dir__ (trivial); points of different curves as
+#   operands of the same operator (native error 16 -> ValueError mapping is unreachable in a one-curve registry).
